@@ -11,7 +11,7 @@ T = {
          "Rocq proofs (ring-buffer rotation invariant, induction over streams; exact-arithmetic refinement; Flocq order instance; Paramcoq abstraction theorem) + bit-exact correspondence + exact-rational tolerance check"),
  "C02": ("Theorems for every number type (bit-exact for binary64): EMA returns its first input and then k*x+(1-k)*prev with k=2/(n+1); TrueRange scalar and bar definitions; ATR = EMA(TR), MACD, KC, CE equal the hand wiring of standalone streams for every period combination. Over exact reals the model's EMA, ATR, MACD and KeltnerChannel streams are the real recursions (C02_ema_exact, closed form C02_ema_closed_form, C02_atr_exact, C02_macd_exact, C02_kc_exact). Agreement of the float recursion with exact evaluation within tau(t): PROVED for ExponentialMovingAverage on binary64 (C02_ema_binary64_within_tau: forward error analysis through Flocq including the rounding of alpha; periods < 2^53, up to 2^45 inputs, explicit magnitude bounds) and for AverageTrueRange on scalars (C02_atr_binary64_within_tau, by composition); for MACD/KC/CE and the bar paths validated by T2 against the exact-rational instance, proved to be the image of the exact real run (partial).",
          "Rocq proofs (stream induction, any carrier) + bit-exact correspondence + exact-rational tolerance check"),
- "C10": ("Theorems for every number type: Next<&T> of the 11 close-only indicators equals Next<f64> on close (Minimum: low, Maximum: high) as an equation of state and output; bars agreeing on the documented read-set are indistinguishable; open is never read; DataItem = any other implementor. One-price bars: FastStochastic / SlowStochastic take exactly the scalar step for every carrier with symmetric == (proved for binary64 from the float axioms, so bit-exact for every float incl. NaN); TrueRange, ATR, KeltnerChannel over exact reals with finite prices ((x+x+x)/3 = x). On binary64 the TR/ATR/KC one-price equality is checked on the implementation (relational) - partial on that component.",
+ "C10": ("Theorems for every number type: Next<&T> of the 11 close-only indicators equals Next<f64> on close (Minimum: low, Maximum: high) as an equation of state and output; bars agreeing on the documented read-set are indistinguishable; open is never read; DataItem = any other implementor. One-price bars: FastStochastic / SlowStochastic take exactly the scalar step for every carrier with symmetric == (proved for binary64 from the float axioms, so bit-exact for every float incl. NaN); TrueRange and ATR also bit-exactly on binary64 for every finite price (C10_tr_one_price_binary64, C10_atr_one_price_binary64); KeltnerChannel over exact reals ((x+x+x)/3 = x), on binary64 checked on the implementation (relational) - partial on that component.",
          "Rocq proofs (definitional equalities over 22 kinds; float == symmetry; exact-carrier one-price steps) + bit-exact correspondence + relational checks on the implementation"),
  "C13": ("Theorems: the exact-arithmetic invariants (running state = from-scratch statistic of the current window) are preserved by every step with no bound on the stream length; variance never negative; Minimum exact forever; the exact-rational oracle is the image of the exact real run (C13_t2_oracle). Float drift within tau(t): proved for SimpleMovingAverage (C13_sma_binary64_no_drift, up to 2^49 inputs); for the others validated on streams of 2*10^4 (quick) / 2*10^6 (thorough) inputs generated identically on both sides, against a fresh exact instance on the current window (partial); refuted for WMA (K7).",
          "Rocq proofs (unbounded invariants) + twin-generator long-stream correspondence (checkpoints + hash of all outputs) + exact-rational window recomputation"),
